@@ -193,6 +193,9 @@ func (s *Service) Message(ctx context.Context, duty *synccommitteemessenger.Duty
 	validatorIndices := duty.ValidatorIndices()
 
 	s.UpdateSyncCommitteeDataRecord(duty.Slot(), *beaconBlockRoot, duty.ContributionIndices())
+	// Housekeep the records here as well: the head event handler only does so when
+	// verification of sync committee inclusion is enabled.
+	s.RemoveHistoricDataUsedForSlotVerification(duty.Slot())
 
 	// Only the accounts we hold are passed to the signer, as a nil account fails the whole batch;
 	// signingIndices[i] is the validator index of accounts[i], to map each signature back.
